@@ -85,7 +85,7 @@ class Files:
     def write(self, rel, text):
         p = os.path.join(self.root, rel)
         os.makedirs(os.path.dirname(p), exist_ok=True)
-        with open(p, "w") as f:
+        with open(p, "w", encoding="utf-8", newline="") as f:
             f.write(text)
         return p
 
@@ -186,8 +186,9 @@ def case_B(c):
             incs = [inc, alt]
         lib = {i: sub for i in incs}
         main = dict(name="M", version="1.0", includes=incs, items=[call("Sub", nparams, [3, 4]), ("stmt", "G", None, [], [N("0")], "none"), call("Sub", nparams, [6, 5], ("2", "-1"))])
-        F.write(srel, lang.render(sub))
-        mp = F.write(mrel, lang.render(main))
+        # the included file (and, for template subroutines, the main file) carries non-ASCII comments
+        F.write(srel, "# \u03b8 = caf\u00e9\n" + lang.render(sub) + "# \u00bc\n")
+        mp = F.write(mrel, lang.render(main) + ("# \u00e9\n" if nparams else ""))
         cwd = {"scriptdir": os.path.dirname(mp), "parent": os.path.dirname(os.path.dirname(mp)), "root": "/", "unrelated": os.path.join(F.root, "unrelated")}[cwdsel]
         os.makedirs(cwd, exist_ok=True)
         os.chdir(cwd)
